@@ -497,6 +497,8 @@ def need_blank(a, b):
         if bk == ak or bk in ('quote', 'list') and ak == 'list':
             return True
         return not can_interrupt_paragraph(b)
+    if ak == 'defs' and bk in ('para', 'setext') and not a.get('blank_after', True):
+        return False                     # text may directly follow a (complete) definition
     if ak == 'para' or ak == 'defs':
         return not can_interrupt_paragraph(b)
     if bk == 'icode':
@@ -560,7 +562,11 @@ def plan_labels(c):
             defs.append({'spelled': respell_label(t, label) if j else (label if t.chance(160) else respell_label(t, label)),
                          'dest': t.choice(['/url%d%d' % (i, j), 'http://h%d/p%d' % (i, j), '/a_b%d%d' % (i, j)]),
                          'angle': t.chance(50), 'title': t.choice(['', '', 't%d%d' % (i, j), 'two words %d' % j]),
-                         'tq': t.choice(['"', "'", '(']), 'order': None})
+                         'tq': t.choice(['"', "'", '(']), 'order': None,
+                         # the destination and / or the title may stand on the next line (canonical: one line)
+                         'dest_nl': (not c.canonical and not c.reflow and t.chance(40)),
+                         'title_nl': (not c.canonical and not c.reflow and t.chance(50)),
+                         'cont_indent': t.weighted([(3, 0), (1, 1), (1, 3)])})
         c.labels.append({'label': label, 'defs': defs, 'used': False})
 
 
@@ -587,7 +593,8 @@ def place_definitions(c, top):
         collect(top, True)
         children, i = slots[t.below(len(slots))]
         # never separate an item's leading 'blank_first' child or put definitions first in a list item
-        node = N('defs', entries=[(rec, d)], indent=0 if c.canonical else t.weighted([(5, 0), (1, 2), (1, 3)]))
+        node = N('defs', entries=[(rec, d)], indent=0 if c.canonical else t.weighted([(5, 0), (1, 2), (1, 3)]),
+                 blank_after=c.canonical or c.reflow or not t.chance(100))
         children.insert(i, node)
 
 
